@@ -28,6 +28,7 @@ type C06Caller struct {
 type C06W struct {
 	Plugins []C06Plugin `json:"plugins"`
 	Callers []C06Caller `json:"callers"`
+	Exits   []string    `json:"exits,omitempty"` // plugins that stop themselves at some point during the traffic
 }
 
 const hugeTimeout = 1000 * time.Hour
@@ -83,6 +84,13 @@ func c06Gen(rng *rand.Rand, conf string, idx int) any {
 		}
 		w.Callers = append(w.Callers, cl)
 	}
+	if rng.Intn(3) == 0 {
+		for _, p := range w.Plugins {
+			if !p.Late && rng.Intn(3) == 0 {
+				w.Exits = append(w.Exits, p.Name)
+			}
+		}
+	}
 	return w
 }
 
@@ -132,6 +140,18 @@ func c06Run(t *testing.T, wl any, sc SchedCfg) *Result {
 				h.StartTask(p)
 			}
 		}
+		exitStep := map[string]int{}
+		for _, name := range w.Exits {
+			name := name
+			if pl := h.Plugs[name]; pl != nil {
+				e.Task("exit-"+name, func() {
+					h.mu.Lock()
+					exitStep[name] = e.S.Steps
+					h.mu.Unlock()
+					pl.Stub.Stop()
+				})
+			}
+		}
 		var reqs []*c06Req
 		for ci, cl := range w.Callers {
 			ci, cl := ci, cl
@@ -165,7 +185,7 @@ func c06Run(t *testing.T, wl any, sc SchedCfg) *Result {
 			res.Violate("C06.liveness", "phase 2: %v; pending %v", err, e.S.Pending())
 			return
 		}
-		c06Oracle(res, w, h, reqs)
+		c06Oracle(res, w, h, reqs, exitStep)
 	})
 }
 
@@ -173,7 +193,7 @@ func subscribed(mask uint32, ev string) bool {
 	return mask == 0 || api.EventMask(mask)&EventBit(ev) != 0
 }
 
-func c06Oracle(res *Result, w *C06W, h *H1, reqs []*c06Req) {
+func c06Oracle(res *Result, w *C06W, h *H1, reqs []*c06Req, exitStep map[string]int) {
 	entries := h.entriesCopy()
 	byReq := map[string][]*Entry{}
 	for _, en := range entries {
@@ -219,6 +239,11 @@ func c06Oracle(res *Result, w *C06W, h *H1, reqs []*c06Req) {
 			sub := subscribed(p.Mask, rq.Event)
 			reg := h.RegisteredStep(pl)
 			certActive := pl.StartErr == nil && reg >= 0 && reg < rq.Inv
+			if es, exited := exitStep[p.Name]; exited && rq.Ret >= es {
+				// the plugin stopped itself before the request returned: it may or may not take part
+				certActive = false
+				res.Probe("C06.request-after-plugin-exit")
+			}
 			ss, synced := syncStep[p.Name]
 			certInactive := !synced || rq.Ret <= ss
 			c := cnt[p.Name]
@@ -274,6 +299,9 @@ func c06Oracle(res *Result, w *C06W, h *H1, reqs []*c06Req) {
 		}
 		if got != nil {
 			for p := range invoked {
+				if es, exited := exitStep[p]; exited && rq.Ret >= es {
+					continue // the plugin stopped itself while the request was in flight: its reply may be lost
+				}
 				if !got[p] {
 					res.Violate("C06.isolation", "request %s (%s): contribution of invoked plugin %s missing from the result", rq.ID, rq.Event, p)
 				}
@@ -397,6 +425,11 @@ func c06Shrink(wl any) []any {
 				out = append(out, c)
 			}
 		}
+	}
+	for i := range w.Exits {
+		c := jsonClone(w)
+		c.Exits = append(c.Exits[:i], c.Exits[i+1:]...)
+		out = append(out, c)
 	}
 	for i := range w.Plugins {
 		if w.Plugins[i].Late {
